@@ -52,6 +52,9 @@ pub struct ArpCfg {
     /// the first `lossy` ARP frames get a deliver/drop choice; usize::MAX with drop_all
     pub lossy: usize,
     pub drop_all: bool,
+    /// machine 2 first resolves this address itself (its request is overheard by everybody) and
+    /// machine 0 starts resolving only 5 ms later
+    pub overheard_first: Option<Ipv4Address>,
 }
 
 fn addr(m: usize, second: bool) -> Ipv4Address {
@@ -97,6 +100,27 @@ impl Protocol for Node {
             arp.listen(addr(self.machine, true));
         }
         initialized.wait().await;
+        if let Some(t) = self.cfg.overheard_first {
+            if self.machine == 2 {
+                let mach = machine.clone();
+                tokio::spawn(async move {
+                    let arp = mach.protocol::<Arp>().unwrap();
+                    let _ = arp
+                        .resolve(
+                            AddressPair {
+                                local: addr(2, false),
+                                remote: t,
+                            },
+                            0,
+                            mach.clone(),
+                        )
+                        .await;
+                });
+            }
+            if self.machine == 0 {
+                tokio::time::sleep(Duration::from_millis(5)).await;
+            }
+        }
         let n = if self.machine == 0 {
             self.cfg.resolvers0
         } else if self.machine == 1 && self.cfg.resolver1 {
@@ -328,6 +352,7 @@ pub fn cfgs(tier: &str) -> Vec<(ArpCfg, Bounds)> {
         resolver1: false,
         lossy: k,
         drop_all: false,
+        overheard_first: None,
     };
     let mut v = vec![];
     let mut add = |name: &str, f: &dyn Fn(&mut ArpCfg)| {
@@ -368,6 +393,14 @@ pub fn cfgs(tier: &str) -> Vec<(ArpCfg, Bounds)> {
         c.second_addr = true;
         c.target = addr(1, false);
         c.expect = Some(1);
+    });
+    add("/32 subnet, gateway = machine 1, target = machine 2 which was overheard ARPing", &|c| {
+        c.subnet = Subnet::Mask(32, 1);
+        c.target = addr(2, false);
+        c.expect = Some(1);
+        c.overheard_first = Some(addr(1, false));
+        c.resolvers0 = 2;
+        c.lossy = 2;
     });
     if !q {
         add("/0 subnet (everything local), 4 machines, 3 resolvers", &|c| {
